@@ -129,11 +129,16 @@ class RateLimiter:
         while True:
             await asyncio.sleep(300)  # Clean every 5 minutes
 
+            # Only drop buckets that are idle *and* would have refilled
+            # completely by now: forgetting a partly drained bucket would hand
+            # the client a fresh, full allowance
             now = time.monotonic()
             to_remove = [
                 ip
                 for ip, bucket in self.buckets.items()
                 if now - bucket.last_update > 600  # 10 minutes idle
+                and bucket.tokens + (now - bucket.last_update) * bucket.refill_rate
+                >= bucket.capacity
             ]
 
             for ip in to_remove:
